@@ -296,7 +296,7 @@ def run(ctx):
     ctx.rule("R5", "cell vectors and grid step vectors are scaled along the right axis", "each cell vector is multiplied by the point count of another axis: the loaded cell differs from the same system in another format")
     from .indexmaps import check_index_maps
 
-    check_index_maps(ctx, "R5", ["cube_cellvecs", "vasp_axes"])
+    check_index_maps(ctx, "R5", ["cube_cellvecs", "vasp_axes", "extxyz_lattice", "vasp_direct"])
     ctx.floor("R5", ctx.rules["R5"]["obligations"], 2, "scaled-vector sites")
 
 
@@ -335,7 +335,7 @@ def unit_tables(prog, shorts):
 VASP_CARTESIAN_KEYS = "CcKk"
 
 
-def check_vasp_mode_switch(ctx):
+def check_vasp_mode_switch(ctx, rid="R4"):
     """R4: which unit conversion a VASP file gets is decided by the documented key characters.
 
     The statements of the header reader that compute the Cartesian/direct switch are evaluated over the finite domain
@@ -346,7 +346,7 @@ def check_vasp_mode_switch(ctx):
     from ..consteval import ConstEval, LineFeed, NotConstant, _Env, feed_next
 
     prog = ctx.prog
-    ctx.rule("R4", "VASP files: Cartesian (angstrom) vs direct (fractional) coordinates are selected by the documented key characters", "a `Kartesian` (or `cart`, `Direct`) file is converted with the wrong formula: coordinates are off by the cell matrix")
+    ctx.rule(rid, "VASP files: Cartesian (angstrom) vs direct (fractional) coordinates are selected by the documented key characters", "a `Kartesian` (or `cart`, `Direct`) file is converted with the wrong formula: coordinates are off by the cell matrix")
     f = prog.func("iodata.formats.chgcar._load_vasp_header")
     lit = f.posparams[0]
     # the switch: `if <name>:` with an angstrom product on one side and a cell-vector product on the other
@@ -399,6 +399,6 @@ def check_vasp_mode_switch(ctx):
                 bad.append((c, pre, got, feed.pos))
     if bad:
         c, pre, got, pos = bad[0]
-        ctx.violate("R4", f"a coordinate-mode line starting with `{c}`" + (f" after a `{pre[0]}` line" if pre else "") + f" is read as {'Cartesian' if got else 'direct'} (consumed {pos} line(s)); VASP treats exactly the first characters C, c, K, k as Cartesian ({len(bad)} of {ncase} cases differ)", f, body[iend], construct=f"vasp mode `{c}` -> {'cartesian' if got else 'direct'}")
+        ctx.violate(rid, f"a coordinate-mode line starting with `{c}`" + (f" after a `{pre[0]}` line" if pre else "") + f" is read as {'Cartesian' if got else 'direct'} (consumed {pos} line(s)); VASP treats exactly the first characters C, c, K, k as Cartesian ({len(bad)} of {ncase} cases differ)", f, body[iend], construct=f"vasp mode `{c}` -> {'cartesian' if got else 'direct'}")
     else:
-        ctx.ok("R4", f"{ncase} cases (first character of the mode line x optional selective-dynamics line): Cartesian iff the line starts with one of `{VASP_CARTESIAN_KEYS}`", f"{f.module.relpath}:{body[iend].lineno}")
+        ctx.ok(rid, f"{ncase} cases (first character of the mode line x optional selective-dynamics line): Cartesian iff the line starts with one of `{VASP_CARTESIAN_KEYS}`", f"{f.module.relpath}:{body[iend].lineno}")
